@@ -63,6 +63,11 @@ class LoopBreak(Terminated):
     pass
 
 
+class LoopContinue(LoopBreak):
+    """`continue`: the rest of the loop body is skipped, but what the iteration did so far persists"""
+    pass
+
+
 class Env(dict):
     def copy(self):
         e = Env(self)
@@ -85,7 +90,13 @@ class Fold:
         self.call_hook = call
         self.atom_hook = atom
         self.record_calls = record_calls      # regex of callees whose calls are recorded as events
-        self.inline = inline or {}            # qname -> Func to inline (depth-limited)
+        # inline: None/"internal" = callees with internal linkage (static / anonymous namespace) defined in the analysed
+        #         units and local lambdas are folded into the caller (depth <= 3); False = nothing; callable(qname, Func) -> bool
+        self.inline = "internal" if inline is None else inline
+        self.pending = []                     # (loop mark, guards, env) of `continue`s awaiting the merge at the end of the loop body
+        self.loop_marks = []
+        self.return_envs = []
+        self.inlined = []
         self.returns = []
         self.throws = []
         self.events = []
@@ -572,6 +583,7 @@ class Fold:
         elif k == "return":
             v = self.ev(s["value"], env) if s.get("value") is not None else None
             self.returns.append((v, list(self.guards), s))
+            self.return_envs.append(env.copy())
             raise Terminated()
         elif k == "if":
             self.do_if(s, env)
@@ -579,7 +591,11 @@ class Fold:
             self.do_loop(s, env)
         elif k == "switch":
             self.do_switch(s, env)
-        elif k in ("break", "continue"):
+        elif k == "continue":
+            if self.loop_marks:
+                self.pending.append((self.loop_marks[-1], list(self.guards), env.copy()))
+            raise LoopContinue()
+        elif k == "break":
             raise LoopBreak()
         elif k == "try":
             self.stmt(s["block"], env)
@@ -716,10 +732,16 @@ class Fold:
             decl, a, b = trip
             for i in range(a, b):
                 env[decl] = sp.Integer(i)
+                self.begin_loop()
                 try:
                     self.stmt(s["body"], env)
+                except LoopContinue:
+                    self.end_loop(env)
+                    continue
                 except Terminated:
+                    self.end_loop(env)
                     break
+                self.end_loop(env)
             env.pop(decl, None)
             return
         self.loop_id += 1
@@ -752,8 +774,13 @@ class Fold:
             cond = self.ev(s["cond"], benv)
         mark = len(self.guards)
         self.guards.append((("loop", lid, cond), True, s))
+        self.begin_loop()
         try:
             self.stmt(s["body"], benv)
+        except Terminated:
+            pass
+        self.end_loop(benv)
+        try:
             if k == "for" and s.get("inc") is not None:
                 self.ev(s["inc"], benv)
         except Terminated:
@@ -766,6 +793,31 @@ class Fold:
                 env[key] = a
                 continue
             env[key] = self.loop_result(old, a, new, lid, key)
+
+    def begin_loop(self):
+        self.loop_marks.append(len(self.guards))
+
+    def end_loop(self, env):
+        """merge the states captured at `continue` statements of the loop body that just ended into env"""
+        mark = self.loop_marks.pop()
+        mine = [p for p in self.pending if p[0] == mark]
+        self.pending = [p for p in self.pending if p[0] != mark]
+        for _, guards, penv in reversed(mine):
+            cond = None
+            for c, pol, _n in guards[mark:]:
+                t = c if pol else ("!", c)
+                cond = t if cond is None else ("&&", cond, t)
+            if cond is None:
+                env.clear(); env.update(penv)
+                continue
+            for key in set(env) | set(penv):
+                a, b = penv.get(key), env.get(key)
+                if a is None or b is None:
+                    if b is None and (not isinstance(key, int)):
+                        env[key] = a
+                    continue
+                if not self.same(a, b):
+                    env[key] = self.ite(cond, a, b)
 
     def keyname(self, key):
         if isinstance(key, tuple):
